@@ -136,3 +136,60 @@ Proof. reflexivity. Qed.
 Lemma env_step_f64_gstep ga gr l d :
   env_step NumF64 ga gr l d = gstep 53 1024 p53 pe53 (f32_to_f64 (if F64.ltb l d then ga else gr)) l d.
 Proof. reflexivity. Qed.
+
+(* `gain.to_sample::<f64>()` = `gain as f64` is exact *)
+Lemma f32_to_f64_exact (x : f32) : is_finite x = true ->
+  B2R (f32_to_f64 x) = B2R x /\ is_finite (f32_to_f64 x) = true.
+Proof.
+  intros Fx. destruct x as [s| | |s m e Hb]; try discriminate; [cbn; auto|].
+  unfold f32_to_f64, gconv, gof_ZE.
+  pose proof (@binary_normalize_correct 53 1024 p53 pe53 mode_NE (if s then Z.neg m else Z.pos m) e s) as H.
+  cbv zeta in H.
+  assert (E : F2R (Float radix2 (if s then Z.neg m else Z.pos m) e) = B2R (B754_finite s m e Hb : f32)).
+  { cbn [B2R]. unfold cond_Zopp. destruct s; reflexivity. }
+  rewrite E in H.
+  assert (Fmt : generic_format radix2 (SpecFloat.fexp 53 1024) (B2R (B754_finite s m e Hb : f32))).
+  { apply generic_inclusion_mag with (fexp1 := SpecFloat.fexp 24 128).
+    - intros _. unfold SpecFloat.fexp, SpecFloat.emin. lia.
+    - apply generic_format_B2R. }
+  rewrite round_generic in H by (auto with typeclass_instances).
+  rewrite Rlt_bool_true in H.
+  - destruct H as (H1 & H2 & _). split; assumption.
+  - eapply Rlt_trans; [apply abs_B2R_lt_emax|]. apply bpow_lt. lia.
+Qed.
+
+Theorem between_ieee_f32 (ga gr l d : f32) :
+  is_finite ga = true -> is_finite gr = true -> is_finite l = true -> is_finite d = true ->
+  0 <= B2R ga <= 1 -> 0 <= B2R gr <= 1 ->
+  Rabs (B2R l) <= bpow radix2 125 -> Rabs (B2R d) <= bpow radix2 125 ->
+  let e := env_step NumF32 ga gr l d in
+  let L' := two_roundings 24 128 (B2R l) (B2R d) in
+  is_finite e = true /\ Rmin (B2R d) L' <= B2R e <= Rmax (B2R d) L' /\
+  Rabs (L' - B2R l) <= / 2 * ulp radix2 (SpecFloat.fexp 24 128) (B2R l - B2R d)
+                       + / 2 * ulp radix2 (SpecFloat.fexp 24 128) (B2R d + round radix2 (SpecFloat.fexp 24 128) ZnearestE (B2R l - B2R d)).
+Proof.
+  intros Fa Fr Fl Fd Ha Hr Hl Hd e L'. subst e L'. rewrite env_step_f32_gstep.
+  assert (Fg : is_finite (if F32.ltb l d then ga else gr) = true) by (destruct (F32.ltb l d); assumption).
+  assert (Hg : 0 <= B2R (if F32.ltb l d then ga else gr) <= 1) by (destruct (F32.ltb l d); assumption).
+  destruct (gstep_between 24 128 p24 pe24 ltac:(lia) _ l d Fg Fl Fd Hg Hl Hd) as (A & _ & B).
+  split; [exact A|]. split; [exact B|]. apply (two_roundings_close 24 128 p24).
+Qed.
+
+Theorem between_ieee_f64 (ga gr : f32) (l d : f64) :
+  is_finite ga = true -> is_finite gr = true -> is_finite l = true -> is_finite d = true ->
+  0 <= B2R ga <= 1 -> 0 <= B2R gr <= 1 ->
+  Rabs (B2R l) <= bpow radix2 1021 -> Rabs (B2R d) <= bpow radix2 1021 ->
+  let e := env_step NumF64 ga gr l d in
+  let L' := two_roundings 53 1024 (B2R l) (B2R d) in
+  is_finite e = true /\ Rmin (B2R d) L' <= B2R e <= Rmax (B2R d) L' /\
+  Rabs (L' - B2R l) <= / 2 * ulp radix2 (SpecFloat.fexp 53 1024) (B2R l - B2R d)
+                       + / 2 * ulp radix2 (SpecFloat.fexp 53 1024) (B2R d + round radix2 (SpecFloat.fexp 53 1024) ZnearestE (B2R l - B2R d)).
+Proof.
+  intros Fa Fr Fl Fd Ha Hr Hl Hd e L'. subst e L'. rewrite env_step_f64_gstep.
+  set (g := if F64.ltb l d then ga else gr).
+  assert (Fg0 : is_finite g = true) by (unfold g; destruct (F64.ltb l d); assumption).
+  assert (Hg0 : 0 <= B2R g <= 1) by (unfold g; destruct (F64.ltb l d); assumption).
+  destruct (f32_to_f64_exact g Fg0) as [Eg Fg]. rewrite <- Eg in Hg0.
+  destruct (gstep_between 53 1024 p53 pe53 ltac:(lia) _ l d Fg Fl Fd Hg0 Hl Hd) as (A & _ & B).
+  split; [exact A|]. split; [exact B|]. apply (two_roundings_close 53 1024 p53).
+Qed.
